@@ -215,6 +215,21 @@ CHECKS = [
              "saved, in order, without stale samples; save_to_hdf5 exports read back with h5py hold the samples, their arithmetic mean "
              "and unbiased standard deviation.",
      "design_ref": "DESIGN.md 4/C26"},
+    {"property_id": "C18", "engine": "B", "category": "other", "technique": TECH_B + "; white noise is a nondeterministic stub (symbolic / unit arrays), the linear solver is injected through the library's own `cg` parameter as an exact jnp solve; the geoVI update runs the compiled Newton-CG in fork mode",
+     "note": NOTE_B + " Bounds: signal dimension 2, data dimension 1-2, one Newton iteration. The classic draw_samples distribution is not claimed here (task independence: C22; sampling operators: C13). Statistical convergence of moments is outside.",
+     "text": "Bounded symbolic verification of nifty.re sampling: for Gaussian and Poissonian likelihoods behind R exp(x) the linear map "
+             "white noise -> residual of draw_linear_residual has covariance (1 + J^T M J)^-1 at the expansion point and zero mean for "
+             "ALL R, data, noise and expansion points; point-estimated keys get exactly zero residuals and the others the covariance of "
+             "the frozen model; OptimizeVI.draw_linear_samples returns exact +- pairs whose average is the expansion point; for linear "
+             "models the geoVI objective and gradient vanish at the linear sample and one Newton-CG iteration returns it unchanged.",
+     "design_ref": "DESIGN.md 4/C18"},
+    {"property_id": "C20", "engine": "B", "category": "other", "technique": TECH_B + "; linear solver injected through draw_linear_kwargs['cg'] (exact jnp solve; thorough: the real static_cg for dim iterations), white noise as symbolic stub; classic WienerFilterCurvature executed on object arrays (engine A)",
+     "note": NOTE_B + " Bounds: signal dimension 2, data dimension 1-2. Convergence of sample covariances with the sample number, MAP/MGVI runs through optimize_kl and the classic curvature's CG inverse (C14) are outside the claim.",
+     "text": "Bounded symbolic verification: for ALL linear models R (1x2, 2x2), Gaussian noise and data the signal-space and the "
+             "data-space result of nifty.re.wiener_filter_posterior satisfy (1 + R^T N^-1 R) m = R^T N^-1 d (the exact posterior mean), "
+             "its samples are exact +- pairs around m solving the sampling equation for symbolic white noise, the noise -> residual "
+             "map has covariance (1 + R^T N^-1 R)^-1; the classic WienerFilterCurvature applied to a field is R^T N^-1 R x + S^-1 x.",
+     "design_ref": "DESIGN.md 4/C20"},
 ]
 
 ALL = [f"C{i:02d}" for i in range(1, 37)]
